@@ -489,6 +489,18 @@ def check(col, prog, tier, profile, fixture=None):
                     if s[0] == "proj" and s[1] == R.N or (s[0] == "load" and s[2][0] == "field" and s[2][2] == R.N):
                         nfield = s
                 ok = a_i == mk_int(0) and a_l == mk_int(0) and nfield is not None and util.lin_equal(a_r, ("bin", "Sub", nfield, mk_int(1)))
+                if not ok and a_i == mk_int(0) and a_l == mk_int(0):
+                    # `build(0, 0, n - 1)` with the constructor's own `n`: the same number when new_raw stores the size it is
+                    # given into the n field on every path
+                    Iraw = analyse(R.fn["new_raw"])
+                    npos = None
+                    for k_ in range(R.fn["new_raw"].arg_count):
+                        pk = ("param", k_ + 1, Iraw.names.get(k_ + 1))
+                        rets = [util.ret_term(s_) for s_ in Iraw.final_states]
+                        if rets and all(r_[0] == "agg" and len(r_[2]) > R.N and r_[2][R.N] == pk for r_ in rets):
+                            npos = k_
+                    if npos is not None and npos < len(raw[0].args):
+                        ok = util.lin_equal(a_r, ("bin", "Sub", raw[0].args[npos], mk_int(1)))
             key = "%s|builds-root" % fk(b)
             if ok:
                 col.ok("R6" + sfx, b.loc(), key, "new_raw(..) then %s(0, 0, n-1)" % builder)
